@@ -13,13 +13,18 @@ META = {
   level='proof',
   text="Proof by contracts: parseHeader, getSectionName, the length-driven sections, the dispatch (sectionFun), each content-driven section's "
        "consumption (EH/MT/LP/SRC/callout units) and the parsePEL section loop (inductive invariant: cursor == start of section k, "
-       "section list == [name(id_j): value_j]) are discharged for all inputs. buildOutput's naming/numbering is decided by exhaustive "
-       "enumeration of all equality patterns of up to 9 sections (E; 11 in the thorough tier) and sampled up to 253 (bounded) - a proof over symbolic names was "
-       "not attempted.",
+       "section list == [name(id_j): value_j]) are discharged for all inputs. buildOutput for ANY number of sections and arbitrary names: "
+       "two loop invariants over a map with unboundedly many keys (arrays name->count, quantified over all names) and a recursively defined "
+       "document OUT(i); every key written is shown new, so entries are appended in log order: KEY(j) = name if it occurs once, else "
+       "name + ' ' + (number of earlier sections with that name). Lemmas discharged separately: counting is monotone (induction, z3), "
+       "a + ' ' + digits determines a and the digits (cvc5 strings), decimal numerals are injective (z3). Additionally all equality patterns of "
+       "up to 9 sections (11 thorough) by enumeration on the real function.",
   note="Trusted: pyvc's models of Python; the opaque spec functions linking layers (section value == toJSON of the class) are by name. "
-       "buildOutput for > 9 (11) sections is bounded only.",
+       "buildOutput's alphabet condition (no section name is another name + ' <number>'; the optional sections do not reuse the ids PH/UH) is a "
+       "precondition: the first part is enumerated over the published table, the second is our reading of 'well-formed'.",
   assumptions=["well-formed = every section's content is decodable and consumes exactly sectionLen bytes (shape-from-code lengths pinned "
-               "in contracts/pelcore.body_len)"]),
+               "in contracts/pelcore.body_len); PH and UH ids occur only as the first two sections",
+               "Python's str(m) for m >= 0 is the decimal numeral (non-empty, digits only) - links lemma L1 to the code's str(modifier)"]),
  'C02': dict(
   level='proof',
   text="Proof: one postcondition per displayed key of PH, UH, EH, MT, LP (offset, width, byte order, table, padding) and getDisplayCompID, "
@@ -188,7 +193,7 @@ TRUSTED = ["assumed contracts of the OS boundary: os.walk, open/read/write/close
            "machine arithmetic: none - Python ints are mathematical and are encoded as z3 Int"]
 
 
-TECH = {'C01': 'contracts + z3 VCs on the real source: section consumption posts, dispatch post, parsePEL loop invariant over recursively defined section list; buildOutput by exhaustive enumeration', 'C02': 'contracts + z3 VCs: one postcondition per displayed field against byte-exact spec functions; sharded over flag words / target counts', 'C03': 'contracts + z3 VCs: sub-structure posts with read footprint, getCallouts by three loop invariants, SRC.toJSON posts with sample registries', 'C04': 'contracts + z3 VCs with the parser module havocked (returns/None/null/raises); hex-dump preservation via the C13 contract', 'C05': 'contracts + z3 VCs in both assert modes (assert statements removed for -O): bounds posts, exceptional postconditions, parsePEL-any-input invariant', 'C06': 'AST-extracted rewrite rule + regex->DFA product/emptiness (position lemma for lines of any length) + call-site check + mode loop invariants for the framing', 'C07': "contracts + z3 VCs: decision procedure equals the statement's selection formula over all severities, flags, switches and group sets", 'C08': 'contracts + z3 VCs: getFileList and the three modes by per-file loop invariants over one shared selection predicate (directories of any size)', 'C09': 'contracts + z3 VCs: stdout/stderr/fs ghost traces; per-file loop invariants: undecodable files contribute nothing (directories of any size)', 'C10': 'contracts + z3 VCs: id normalisation, PLID string lemma for all 2^32 ids (base-16 lemmas), look-up loops by (quantified) invariants', 'C11': 'contracts + z3 VCs: frame conditions on the ghost fs trace; deletion loops by invariants; main dispatch over all option combinations', 'C12': 'contracts + z3 VCs: every I/O primitive forks into success/OSError (all fault sequences); remove only after write_ok and close_ok', 'C13': 'contracts + z3 VCs: hexdump loop invariant, per-line parse lemmas on concrete-shape strings for 3 templates, syntactic independence lemma; layout enumeration', 'C14': 'contracts + z3 VCs: wildcard match on symbolic patterns, first-match search (quantified invariant), entry loop invariant', 'C15': 'contracts + z3 VCs: entry framing posts, buffer/format/parse loop invariants over recursively defined positions and line lists', 'C16': 'contracts + z3 VCs: field loop invariant over an arbitrary symbolic field table', 'C17': 'contracts + z3 VCs: partition/order/slice posts over the six header finds; auto-detection post; cross-template lemma', 'C18': 'contracts + z3 VCs over imports/plugin_calls traces with parser modules havocked; plugins-disabled frames', 'C19': 'contracts + z3 VCs: cache invariants preserved by every operation (all histories by induction); frame obligations on shared mutable state', 'C20': 'contracts + z3 VCs: field-exact slicing posts (both assert modes), signature-list invariant, register dump by nested invariants over all data sizes'}
+TECH = {'C01': 'contracts + z3 VCs on the real source: section consumption posts, dispatch post, parsePEL loop invariant over recursively defined section list; buildOutput by two loop invariants over an array-modelled map + lemmas (z3 induction, cvc5 strings) and exhaustive enumeration', 'C02': 'contracts + z3 VCs: one postcondition per displayed field against byte-exact spec functions; sharded over flag words / target counts', 'C03': 'contracts + z3 VCs: sub-structure posts with read footprint, getCallouts by three loop invariants, SRC.toJSON posts with sample registries', 'C04': 'contracts + z3 VCs with the parser module havocked (returns/None/null/raises); hex-dump preservation via the C13 contract', 'C05': 'contracts + z3 VCs in both assert modes (assert statements removed for -O): bounds posts, exceptional postconditions, parsePEL-any-input invariant', 'C06': 'AST-extracted rewrite rule + regex->DFA product/emptiness (position lemma for lines of any length) + call-site check + mode loop invariants for the framing', 'C07': "contracts + z3 VCs: decision procedure equals the statement's selection formula over all severities, flags, switches and group sets", 'C08': 'contracts + z3 VCs: getFileList and the three modes by per-file loop invariants over one shared selection predicate (directories of any size)', 'C09': 'contracts + z3 VCs: stdout/stderr/fs ghost traces; per-file loop invariants: undecodable files contribute nothing (directories of any size)', 'C10': 'contracts + z3 VCs: id normalisation, PLID string lemma for all 2^32 ids (base-16 lemmas), look-up loops by (quantified) invariants', 'C11': 'contracts + z3 VCs: frame conditions on the ghost fs trace; deletion loops by invariants; main dispatch over all option combinations', 'C12': 'contracts + z3 VCs: every I/O primitive forks into success/OSError (all fault sequences); remove only after write_ok and close_ok', 'C13': 'contracts + z3 VCs: hexdump loop invariant, per-line parse lemmas on concrete-shape strings for 3 templates, syntactic independence lemma; layout enumeration', 'C14': 'contracts + z3 VCs: wildcard match on symbolic patterns, first-match search (quantified invariant), entry loop invariant', 'C15': 'contracts + z3 VCs: entry framing posts, buffer/format/parse loop invariants over recursively defined positions and line lists', 'C16': 'contracts + z3 VCs: field loop invariant over an arbitrary symbolic field table', 'C17': 'contracts + z3 VCs: partition/order/slice posts over the six header finds; auto-detection post; cross-template lemma', 'C18': 'contracts + z3 VCs over imports/plugin_calls traces with parser modules havocked; plugins-disabled frames', 'C19': 'contracts + z3 VCs: cache invariants preserved by every operation (all histories by induction); frame obligations on shared mutable state', 'C20': 'contracts + z3 VCs: field-exact slicing posts (both assert modes), signature-list invariant, register dump by nested invariants over all data sizes'}
 
 
 def apply(PROPS):
